@@ -498,9 +498,12 @@ class SymExec:
     def paths_of(self, func: Func):
         return PathEnum(self.loop_iters, exc_edges=self.exc_edges, per_loop=self.per_loop).function_paths(func.node)
 
+    FOLLOWED: set = set()  # qualnames of repository functions some symbolic run has interpreted (per process)
+
     def run_function(self, func: Func, st: State, args: dict, depth=0, keep_raise=False):
         """Run every path of `func` from state `st` with parameter bindings `args`.
         -> list of final States (status return/raise)."""
+        SymExec.FOLLOWED.add(func.qualname)
         out = []
         saved_env = st.env
         for p in self.paths_of(func):
